@@ -430,5 +430,190 @@ def rule_sib(ctx):
     return res.finish(14)
 
 
+def rule_snapshot(ctx):
+    """A 'did the status change?' test `before != self.alpha[i].reached_upper()` only means something if `before` was
+    read before the variable was modified: Alpha's status is computed from its value, so a snapshot taken after the
+    writes compares the new status with itself, the test is never true, and gradient_fixed (G_bar) is never maintained -
+    reconstruct_gradient then rebuilds the gradient of the shrunken variables from stale sums."""
+    from .sym import Tracer
+    res = RuleResult("R-C13-snapshot", "every status-change test compares against a snapshot taken before the first write to the state it re-reads, with a write in between")
+    F = ctx.facts()
+    n_tests = 0
+    for fn in solver_fns(F):
+        r = Render(fn["crate"])
+        lets = {}
+        for n in walk(fn["body"]):
+            if n.get("k") == "LetStmt" and n.get("init") is not None and n["pat"].get("k") == "Bind":
+                lets[n["pat"]["local"]] = n
+        tests = []
+        for n in walk(fn["body"]):
+            if n.get("k") != "If":
+                continue
+            c = strip(n["c"])
+            if c.get("k") != "Binary" or c["op"] not in ("!=", "=="):
+                continue
+            for a, b in ((c["l"], c["r"]), (c["r"], c["l"])):
+                pa = peel_refs(a)
+                if pa.get("k") == "Path" and pa.get("local") in lets:
+                    init = lets[pa["local"]]["init"]
+                    fields = set(x["name"] for x in walk(init) if x.get("k") == "Field" and self_field(x) == x["name"])
+                    if fields and r.e(peel_refs(init)) == r.e(peel_refs(b)):
+                        tests.append((n, pa, lets[pa["local"]], b, fields))
+        if not tests:
+            continue
+        tr = Tracer(fn).run()
+        order_of = {}
+        for e in tr.events:
+            if e.kind == "let":
+                order_of[id(e.node)] = e.order
+            if e.kind == "call":
+                order_of.setdefault(id(e.node), e.order)
+        writes = [e for e in tr.events if e.kind in ("assign", "assignop")]
+        for ifn, loc, let, reread, fields in tests:
+            n_tests += 1
+            key = fn_key(fn)
+            inst = "%s : `%s` %s re-read of `%s`" % (key, loc.get("name"), strip(ifn["c"])["op"], r.e(peel_refs(reread))[:50])
+            res.instance(inst)
+            o_let = order_of.get(id(let))
+            rr = next((x for x in walk(reread) if x.get("k") == "MethodCall" and id(x) in order_of), None)
+            o_cmp = order_of.get(id(rr)) if rr is not None else None
+            if o_let is None or o_cmp is None:
+                res.violate("%s : snapshot-order-unknown:%s" % (key, loc.get("name")), "cannot order the snapshot and its re-read (fail closed)", fn_loc(fn, ifn["ln"]))
+                continue
+            w = [e for e in writes if any(("field:%s(" % f) in e.lhs or ("self.%s[" % f) in e.lhs or e.lhs.endswith("self.%s" % f) or ("self.%s." % f) in e.lhs for f in fields)]
+            # writes that merely re-wrap the element are recognised by their right-hand side mentioning the element's own value
+            before = [e for e in w if e.order < o_let]
+            between = [e for e in w if o_let < e.order < o_cmp]
+            if before:
+                res.violate("%s : snapshot-after-write:%s" % (key, loc.get("name")),
+                            "`%s` is read after `%s` has already been written (first write at line %d): the later test compares the new status with itself, is never true, and the block it guards (maintenance of gradient_fixed) never runs" % (loc.get("name"), "/".join(sorted(fields)), before[0].node["ln"]), fn_loc(fn, let["ln"]))
+            elif not between:
+                res.violate("%s : snapshot-without-write:%s" % (key, loc.get("name")), "nothing writes `%s` between the snapshot and its re-read: the test is vacuous" % "/".join(sorted(fields)), fn_loc(fn, ifn["ln"]))
+            else:
+                res.ok()
+                res.sample({"test": inst, "writes_between": len(between)})
+    if n_tests < 2:
+        res.missing_anchor("status-change tests of SolverState::update (expected 2, found %d)" % n_tests)
+    return res.finish(2)
+
+
+def _inf_sign(c, n):
+    """+1 for F::infinity()/max_value(), -1 for -F::infinity()/neg_infinity()/min_value(), else 0"""
+    n = peel_refs(n)
+    sign = 1
+    while n.get("k") == "Unary" and n["op"] == "-":
+        sign = -sign
+        n = peel_refs(n["e"])
+    if n.get("k") == "Call" and not n["args"]:
+        d = c.dfn(strip(n["f"]).get("def")) if strip(n["f"]).get("k") == "Path" else None
+        nm = d["name"] if d else None
+        if nm in ("infinity", "max_value"):
+            return sign
+        if nm in ("neg_infinity", "min_value"):
+            return -sign
+    return 0
+
+
+def rule_rho(ctx):
+    """(a) A running bound that starts at +infinity can only be tightened by `min`, one that starts at -infinity only by
+    `max`: with the other operation the start value is absorbing and the update never has an effect (the bound stays
+    infinite and the mid-point (ub + lb)/2 used when no variable is free is not finite). (b) In calculate_rho every branch
+    of the (status, label) case analysis must feed the same quantity y_i*G_i into the bounds and the free sum; under a
+    test of the label the literal sign may replace y_i."""
+    from .sym import Tracer, as_poly, as_term, k
+    res = RuleResult("R-C13-rho", "running bounds initialised at +/-infinity are tightened by min/max respectively; all branches of calculate_rho use y_i*G_i")
+    F = ctx.facts()
+    n_upd = 0
+    for fn in solver_fns(F):
+        c = fn["crate"]
+        r = Render(c)
+        inits = {}
+        for n in walk(fn["body"]):
+            if n.get("k") != "LetStmt" or n.get("init") is None:
+                continue
+            pat, init = n["pat"], strip(n["init"])
+            if pat.get("k") == "Bind":
+                sg = _inf_sign(c, init)
+                if sg:
+                    inits[pat["local"]] = (sg, pat["name"])
+            elif pat.get("k") == "Tuple" and init.get("k") == "Tup":
+                for q, e in zip(pat["pats"], init["es"]):
+                    if q.get("k") == "Bind":
+                        sg = _inf_sign(c, e)
+                        if sg:
+                            inits[q["local"]] = (sg, q["name"])
+        if not inits:
+            continue
+        key = fn_key(fn)
+        for n in walk(fn["body"]):
+            if n.get("k") != "Assign":
+                continue
+            tgt = peel_refs(n["l"])
+            if tgt.get("k") != "Path" or tgt.get("local") not in inits:
+                continue
+            rhs = strip(n["r"])
+            op = None
+            args = []
+            if rhs.get("k") == "Call":
+                d = c.dfn(strip(rhs["f"]).get("def")) if strip(rhs["f"]).get("k") == "Path" else None
+                op, args = (d["name"] if d else None), rhs["args"]
+            elif rhs.get("k") == "MethodCall":
+                op, args = rhs["name"], [rhs["recv"]] + rhs["args"]
+            if op not in ("max", "min") or not any(peel_refs(a).get("local") == tgt["local"] for a in args):
+                continue
+            sg, name = inits[tgt["local"]]
+            n_upd += 1
+            inst = "%s : `%s` (starts at %sinfinity) updated by %s" % (key, name, "+" if sg > 0 else "-", op)
+            res.instance(inst)
+            if (sg > 0 and op == "min") or (sg < 0 and op == "max"):
+                res.ok()
+            else:
+                res.violate("%s : absorbing-start:%s" % (key, name), "`%s` starts at %sinfinity and is updated with `%s`: the start value is absorbing, the update never changes it and the bound stays infinite" % (name, "+" if sg > 0 else "-", op), fn_loc(fn, n["ln"]))
+    if n_upd < 8:
+        res.missing_anchor("running-bound updates in calculate_rho / calculate_rho_nu (expected 8, found %d)" % n_upd)
+    # (b) one quantity in every branch of calculate_rho
+    for fn in [f for f in solver_fns(F) if f["d"]["name"] == "calculate_rho"]:
+        key = fn_key(fn)
+        tr = Tracer(fn).run()
+        leaves = []
+        for e in tr.events:
+            if not e.loops:
+                continue
+            if e.kind == "assign" and e.lhs.startswith("local:"):
+                v = as_term(e.val)
+                if v is not None and v.is_call("max", "min") and len(v.args) == 2:
+                    leaves.append((e, v.args[1]))
+            elif e.kind == "assignop" and e.op == "+" and e.lhs.startswith("local:") and as_poly(e.val) is not None and as_poly(e.val).atoms():
+                leaves.append((e, e.val))
+        n_leaf = 0
+        for e, x in leaves:
+            px = as_poly(x)
+            if px is None:
+                continue
+            atoms = list(px.atoms())
+            if not any("gradient" in a for a in atoms):
+                continue
+            n_leaf += 1
+            res.instance("%s : branch value `%s`" % (key, k(x)[:60]))
+            # label sign known from an enclosing test of targets[i]?
+            sgn = None
+            for g in e.guards:
+                if g[1].startswith("index(field:targets(") or g[1].startswith("not(index(field:targets("):
+                    pos = (g[0] == "+") != g[1].startswith("not(")
+                    sgn = 1 if pos else -1
+            has_y = any("call:target(" in a for a in atoms)
+            grad_only = len(px.t) == 1 and all(len(m) == 1 for m in px.t)
+            coef = list(px.t.values())[0] if len(px.t) == 1 else None
+            if has_y and len(px.t) == 1 and coef == 1:
+                res.ok()            # y_i * G_i itself
+            elif grad_only and sgn is not None and coef == sgn:
+                res.ok()            # literal sign of the label under a test of the label
+            else:
+                res.violate("%s : branch-sign" % key, "a branch of calculate_rho feeds `%s` into the bounds / free sum%s; every branch must use y_i*G_i (sign of the label times the gradient)" % (k(x)[:60], " under a label test where y_i = %+d" % sgn if sgn is not None else ""), fn_loc(fn, e.node["ln"]))
+        if n_leaf < 5:
+            res.missing_anchor("the five branch values of calculate_rho (found %d)" % n_leaf)
+    return res.finish(13)
+
+
 def rules(tier):
-    return [rule_swap, rule_bound, rule_space, rule_sv, rule_sib]
+    return [rule_swap, rule_bound, rule_space, rule_sv, rule_sib, rule_snapshot, rule_rho]
